@@ -3,6 +3,7 @@ import json
 import re
 
 from lib import blockgen
+from lib import bpcorr
 from lib import common as C
 from lib import corr
 from lib.flow import Failure
@@ -14,7 +15,12 @@ MANIFEST = {
             "that shadows an outer variable leaves it with its previous type — for EVERY body (assignments and nested blocks "
             "at any depth; the statements do not depend on what the body does); inside the block parameter i has the i-th "
             "declared type; for a receiver of union type each parameter is the union over the variants of what the variant's "
-            "method declares for the position, NilClass where it declares fewer (C17_union_receiver). Tie: union receivers of "
+            "method declares for the position, NilClass where it declares fewer (C17_union_receiver); the resolution of the declared "
+            "types against the receiver is modelled (appendParameterBeforeTypeCalculate: Unify, Flatten, Item, Self, UnifyArgument, "
+            "arrays and unions of them): Unify is the union of the receiver's element types, Flatten with at most one block variable "
+            "the same, and with two or more a receiver holding tuples [x1..xk] gives variable j the type xj (C17_resolve_*). Tie: "
+            "that function is folded over generated declared lists through a hook (receivers: arrays, arrays of arrays, hashes, "
+            "ranges, strings, unions; 0-3 block variables) and compared with the model, receiver afterwards included; union receivers of "
             "2-3 variants of different classes (arrays, ranges, hashes) with 1-3 block variables are run through ti and every "
             "parameter is compared with `union_declared` by vm_compute; the model is run on the block structure of generated programs and compared with what ti "
             "prints after each block (vm_compute); end to end, generated block calls (do/end and braces) over arrays, "
@@ -22,19 +28,19 @@ MANIFEST = {
             "deep, after an ordinary call resolved earlier in the file, are compared with the declared block_parameters "
             "resolved against the receiver at every dbtp.",
     "note": "Trusted: Coq kernel + vm_compute; lib/blockgen.py (declared block_parameters of the shipped configuration, resolved "
-            "by hand for 17 receiver/method pairs). The resolution of Unify / Flatten / Item against the receiver "
-            "(appendParameterBeforeTypeCalculate) is exercised end to end only.",
+            "by hand for 17 receiver/method pairs). Item on a hash receiver (it draws a fresh symbol id) is "
+            "exercised end to end only.",
     "technique": "Coq proof (scope discipline of snapshot/restore, independent of the body); correspondence by vm_compute on the "
                  "variable table after blocks; end-to-end comparison with declared block parameter types",
 }
-REQUIRES = ["Model/Blocks.v"]
+REQUIRES = ["Model/Blocks.v", "Model/BlockParams.v"]
 RULE = ("1-3 top-level block calls per program from 17 receiver/method pairs (4 of them union receivers), 0-3 parameters (30% shadowing an outer variable), "
         "0-3 locals, nesting <= 2; dbtp of every parameter, local and outer variable inside, after nested blocks and after the "
         "block; non-trivial = nesting, shadowing or surplus parameters")
 TRUSTED = []
 ASSUMPTIONS = []
 PARTIAL = ["a block parameter that shadows nothing stays bound (as untyped) after the block: not addressed by the property",
-           "resolution of declared parameter types against the receiver: exploration only"]
+           "Item on a hash receiver and declared types written as a namespace path: not modelled"]
 
 
 def part_e2e(ctx, part):
@@ -191,7 +197,7 @@ def part_union_receiver_tie(ctx, part):
     part.agreed += len(terms) - len(bad)
 
 
-PARTS = [part_model_tie, part_union_receiver_tie, part_e2e]
+PARTS = [part_model_tie, part_union_receiver_tie, bpcorr.part_block_params, part_e2e]
 
 
 def replay(path):
